@@ -119,7 +119,7 @@ func (g *gen) Add(name string, typs []types.Type) (string, error) {
 	case *types.Chan:
 		switch t.Elem().(type) {
 		case *types.Chan:
-			_, _, err := g.chanType(name, typs)
+			_, _, _, err := g.chanType(name, typs)
 			if err != nil {
 				return "", err
 			}
@@ -164,20 +164,24 @@ func (g *gen) errorType(name string, typs []types.Type) ([]types.Type, error) {
 	return outTyps, nil
 }
 
-func (g *gen) chanType(name string, typs []types.Type) (types.Type, types.ChanDir, error) {
+// chanType returns the element type of the inner channels and the directions of the outer and the inner channels.
+func (g *gen) chanType(name string, typs []types.Type) (types.Type, types.ChanDir, types.ChanDir, error) {
 	if len(typs) != 1 {
-		return nil, types.SendRecv, fmt.Errorf("%s does not have one argument", name)
+		return nil, types.SendRecv, types.SendRecv, fmt.Errorf("%s does not have one argument", name)
 	}
 	chanTyp, ok := typs[0].(*types.Chan)
 	if !ok {
-		return nil, types.SendRecv, fmt.Errorf("%s, the argument, %s, is not of type chan", name, typs[0])
+		return nil, types.SendRecv, types.SendRecv, fmt.Errorf("%s, the argument, %s, is not of type chan", name, typs[0])
 	}
 	chanOfChanTyp, ok := chanTyp.Elem().(*types.Chan)
 	if !ok {
-		return nil, types.SendRecv, fmt.Errorf("%s, the argument, %s, is not of type chan of chan", name, typs[0])
+		return nil, types.SendRecv, types.SendRecv, fmt.Errorf("%s, the argument, %s, is not of type chan of chan", name, typs[0])
+	}
+	if chanTyp.Dir() == types.SendOnly || chanOfChanTyp.Dir() == types.SendOnly {
+		return nil, types.SendRecv, types.SendRecv, fmt.Errorf("%s, the argument, %s, contains a send only channel, which cannot be received from", name, typs[0])
 	}
 	elemType := chanOfChanTyp.Elem()
-	return elemType, chanTyp.Dir(), nil
+	return elemType, chanTyp.Dir(), chanOfChanTyp.Dir(), nil
 }
 
 func (g *gen) chanVariantTypes(name string, typs []types.Type) ([]types.Type, []types.ChanDir, error) {
@@ -190,6 +194,9 @@ func (g *gen) chanVariantTypes(name string, typs []types.Type) ([]types.Type, []
 		chanTyp, ok := typs[i].(*types.Chan)
 		if !ok {
 			return nil, nil, fmt.Errorf("%s, the argument, %s, is not of type chan", name, typs[0])
+		}
+		if chanTyp.Dir() == types.SendOnly {
+			return nil, nil, fmt.Errorf("%s, the argument, %s, is a send only channel, which cannot be received from", name, typs[i])
 		}
 		chanTyps[i] = chanTyp.Elem()
 		if i != 0 {
@@ -213,6 +220,9 @@ func (g *gen) sliceOfChanType(name string, typs []types.Type) (types.Type, types
 	sliceOfChanTyp, ok := sliceTyp.Elem().(*types.Chan)
 	if !ok {
 		return nil, types.SendRecv, fmt.Errorf("%s, the argument, %s, is not of type slice of chan", name, typs[0])
+	}
+	if sliceOfChanTyp.Dir() == types.SendOnly {
+		return nil, types.SendRecv, fmt.Errorf("%s, the argument, %s, is a slice of send only channels, which cannot be received from", name, typs[0])
 	}
 	elemType := sliceOfChanTyp.Elem()
 	return elemType, sliceOfChanTyp.Dir(), nil
@@ -343,7 +353,7 @@ func (g *gen) genChan(typs []types.Type) error {
 	p := g.printer
 	g.Generating(typs...)
 	name := g.GetFuncName(typs...)
-	elemTyp, dir, err := g.chanType(name, typs)
+	elemTyp, dir, innerDir, err := g.chanType(name, typs)
 	if err != nil {
 		return err
 	}
@@ -351,10 +361,15 @@ func (g *gen) genChan(typs []types.Type) error {
 	if dir == types.RecvOnly {
 		dirStr = "<-"
 	}
+	// channel types are only identical when their element types are, so the inner channels keep their direction.
+	innerDirStr := "<-"
+	if innerDir == types.SendRecv {
+		innerDirStr = ""
+	}
 	typStr := g.TypeString(elemTyp)
 	p.P("")
 	p.P("// %s listens on all channels resulting from the input channel and sends all their results on the output channel.", name)
-	p.P("func %s(in %schan (<-chan %s)) <-chan %s {", name, dirStr, typStr, typStr)
+	p.P("func %s(in %schan (%schan %s)) <-chan %s {", name, dirStr, innerDirStr, typStr, typStr)
 	p.In()
 	p.P("out := make(chan %s)", typStr)
 	p.P("go func() {")
